@@ -102,3 +102,15 @@ Definition la_of (tbl:N->N->bool) (L:list (N * (bool * dfa))) (t:N) (rest:list N
 
 Definition find_mode (tbl:N->N->bool) (M:mode_aut) (s:list N) : res (option (N * nat)) :=
   find_from tbl (main M) (la_of tbl (las M)) s.
+
+(* every accepting token type is listed in terminal_ids (so priority_of never unwraps None) *)
+Definition dfa_ok (D:dfa) : Prop := forall q t, acc D q t = true -> In t (tids D).
+Definition dfa_okb (D:dfa) : bool :=
+  forallb (fun e : bool * N => if fst e then nmem (snd e) (tids D) else true) (fin D).
+
+
+Definition mode_ok (M:mode_aut) : Prop :=
+  dfa_ok (main M) /\ forall t pos D, nassoc t (las M) = Some (pos, D) -> dfa_ok D.
+Definition mode_okb (M:mode_aut) : bool :=
+  dfa_okb (main M) && forallb (fun e : N * (bool * dfa) => dfa_okb (snd (snd e))) (las M).
+
